@@ -299,7 +299,17 @@ func drawText(t *rapid.T) TextCase {
 	var e *textEntry
 	if only := stats.EnvInt("C10_TEXT_ONLY", -1); only >= 0 && only < len(all) {
 		e = all[only]
-	} else if rapid.IntRange(0, 3).Draw(t, "bias") == 0 {
+	} else if b := rapid.IntRange(0, 7).Draw(t, "bias"); b == 2 {
+		// an eighth go to the spend-policy forms: the only JSON decoder of the library with a hand-written pre-scan and a
+		// recursion of its own, one entry among two hundred otherwise
+		var pol []*textEntry
+		for _, x := range all {
+			if strings.Contains(x.Name, "Policy") {
+				pol = append(pol, x)
+			}
+		}
+		e = pol[uniform(t, len(pol))]
+	} else if b <= 1 {
 		// a quarter of the cases go to the hand-written parsers and UnmarshalText methods,
 		// which are few among the ~190 JSON entries
 		var small []*textEntry
